@@ -261,7 +261,7 @@ func (g *engcGen) pick(name string, from []basics.Address) basics.Address {
 func (g *engcGen) funded(need uint64) []basics.Address {
 	var out []basics.Address
 	for _, a := range g.all {
-		if g.spendable(a) >= need {
+		if sp := g.spendable(a); sp > 0 && sp >= need {
 			out = append(out, a)
 		}
 	}
@@ -701,8 +701,21 @@ func (g *engcGen) build(kind string) *txntest.Txn {
 			val := []byte(fmt.Sprintf("v%d", rapid.IntRange(0, 99).Draw(t, "val")))
 			boxKey := engcBoxKey(app, box)
 			cur, boxExists := g.s.Kv[boxKey]
-			ops := []string{"gput", "gput", "gputi", "gdel", "lput", "lput", "ldel", "bcreate", "bcreate", "bput", "bput", "bresize", "breplace", "bdel", "bdel", "ipay", "ipay", "log", "reject", "bogus"}
+			ops := []string{"gput", "gput", "gputi", "gdel", "lput", "lput", "ldel", "bcreate", "bcreate", "bput", "bput", "bresize", "breplace", "bdel", "bdel", "ipay", "ipay", "ipay", "ipay", "log", "reject", "bogus"}
 			op := ops[rapid.IntRange(0, len(ops)-1).Draw(t, "op")]
+			// steer puts towards what the schema allows (a put beyond the schema is rejected; keep 1 in 5 of those)
+			if params, ok := g.s.Acct(creator).AppParams[app]; ok && rapid.IntRange(0, 4).Draw(t, "schemaBlind") != 0 {
+				switch op {
+				case "gput", "gputi":
+					op, key = engcSteerPut(t, op, key, params.GlobalState, params.GlobalStateSchema, "gput", "gputi", "gdel")
+				case "lput":
+					if len(in) > 0 {
+						tx.Sender = g.pick("sndIn", in)
+						ls := g.s.Acct(tx.Sender).AppLocals[app]
+						op, key = engcSteerPut(t, op, key, ls.KeyValue, ls.Schema, "lput", "", "ldel")
+					}
+				}
+			}
 			// steer towards applicable box operations: create what is missing, and delete/modify what exists
 			if (op == "bresize" || op == "breplace" || op == "bdel") && !boxExists && rapid.IntRange(0, 4).Draw(t, "boxMissing") != 0 {
 				op = "bcreate"
@@ -724,7 +737,7 @@ func (g *engcGen) build(kind string) *txntest.Txn {
 			case "gdel":
 				tx.ApplicationArgs = [][]byte{[]byte("gdel"), []byte(key)}
 			case "lput", "ldel":
-				if len(in) > 0 && rapid.IntRange(0, 9).Draw(t, "localNotIn") != 0 {
+				if _, isIn := g.s.Acct(tx.Sender).AppLocals[app]; !isIn && len(in) > 0 && rapid.IntRange(0, 9).Draw(t, "localNotIn") != 0 {
 					tx.Sender = g.pick("sndIn", in)
 				}
 				tx.ApplicationArgs = [][]byte{[]byte(op), []byte(key)}
@@ -790,6 +803,51 @@ func (g *engcGen) build(kind string) *txntest.Txn {
 		return tx
 	}
 	return nil
+}
+
+// engcSteerPut adapts a put of `key` to the key/value store kv under schema: if the key is new and the schema has no
+// room for another value of that type it re-targets an existing key of the type, or turns the put into a delete.
+func engcSteerPut(t *rapid.T, op, key string, kv basics.TealKeyValue, schema basics.StateSchema, putBytes, putUint, del string) (string, string) {
+	var nUint, nBytes uint64
+	var uintKeys, bytesKeys []string
+	for _, k := range engcKeys { // deterministic order
+		v, ok := kv[k]
+		if !ok {
+			continue
+		}
+		if v.Type == basics.TealUintType {
+			nUint++
+			uintKeys = append(uintKeys, k)
+		} else {
+			nBytes++
+			bytesKeys = append(bytesKeys, k)
+		}
+	}
+	cur, exists := kv[key]
+	wantUint := op == putUint && putUint != ""
+	room := nBytes < schema.NumByteSlice
+	same := bytesKeys
+	if wantUint {
+		room = nUint < schema.NumUint
+		same = uintKeys
+	}
+	if exists && (cur.Type == basics.TealUintType) == wantUint {
+		return op, key // overwrite in place
+	}
+	if !exists && room {
+		return op, key
+	}
+	if len(same) > 0 {
+		return op, same[rapid.IntRange(0, len(same)-1).Draw(t, "steerKey")]
+	}
+	if exists {
+		return del, key
+	}
+	if len(uintKeys)+len(bytesKeys) > 0 {
+		all := append(append([]string{}, uintKeys...), bytesKeys...)
+		return del, all[rapid.IntRange(0, len(all)-1).Draw(t, "steerDel")]
+	}
+	return op, key // nothing stored and no room: rejected, part of the domain
 }
 
 // engcStartEval is upstream nextBlock() with errors returned instead of require'd.
